@@ -17,6 +17,15 @@ var propCfgs = []*propCfg{
 		Stub: []string{"harness stages vsrc/vrelay/vsink/vfailafter (workload and recording only)"},
 		Assumptions: simgoAssumptions,
 	},
+	{
+		ID: "C19", Level: "fault_enumeration", SimEngine: "simgo",
+		Quick:    tierCfg{Seeds: 400, Secs: 80, Batch: 10},
+		Thorough: tierCfg{Seeds: 40000, Secs: 900, Batch: 20},
+		Rule: "one evaluation = one corpus program (loops, recursion, pipelines, each, peach bounded/unbounded/direct Go callable, run-parallel, sleep, try/finally, capture, background job) with tape-chosen sizes, in one of three fault modes: enumerate (reference run, then one simulation per scheduler step k with the cancellation injected at k, under the non-preemptive schedule and seeded random ones; counted in sub_evaluations), synchronous in-program interrupt under a seeded schedule, one random-step interrupt under a seeded schedule; distinct = distinct combined interleaving+fault signature; non-trivial = an interrupt actually fired",
+		Real: []string{"pkg/eval: chunkOp/pipelineOp cancellation checks, peach (x/sync/semaphore), each, run-parallel, sleep (fake clock via real time.After), try/finally, output capture, background jobs, EvalCfg.Interrupts"},
+		Stub: []string{"signal delivery: the context is cancelled by the scheduler at a chosen step or by a harness builtin, instead of by SIGINT", "harness builtins vt/vw/vintr (tick, timed work item, synchronous interrupt)"},
+		Assumptions: simgoAssumptions,
+	},
 }
 
 func findProp(id string) *propCfg {
